@@ -12,9 +12,9 @@ import (
 	"github.com/Comcast/sheens/match"
 	"github.com/jsccast/yaml"
 	"pgregory.net/rapid"
-	"verif/internal/ev"
-	"verif/internal/jsongen"
-	"verif/internal/sm"
+	"verif/lib/ev"
+	"verif/lib/jsongen"
+	"verif/lib/sm"
 )
 
 // ---------------------------------------------------------------- C07
